@@ -85,6 +85,7 @@ type Outcome struct {
 	Digest      uint64
 	BodyPanics  [MaxClients]string
 	Starved     int // fairness guard fired
+	Deadlocks   int // every live client blocked on a lock held by another
 }
 
 // StepCapExceeded is the panic value raised from a yield point when an operation
@@ -92,27 +93,29 @@ type Outcome struct {
 type StepCapExceeded struct{}
 
 type state struct {
-	active   bool
-	cfg      *Config
-	rng      uint64
-	n        int
-	nAlive   int
-	cur      int
-	alive    [MaxClients]bool
-	gates    [MaxClients]gate
-	done     gate
-	endSync  uint64 // address used for the final release/acquire only
-	step     uint64
-	lstep    [MaxClients]uint64
-	opSteps  [MaxClients]uint64
-	lastSite [MaxClients]int32
-	prevW    [MaxClients]bool
-	since    uint64
-	events   []Event
-	npre     int
-	digest   uint64
-	starved  int
-	first    int
+	active        bool
+	cfg           *Config
+	rng           uint64
+	n             int
+	nAlive        int
+	cur           int
+	alive         [MaxClients]bool
+	gates         [MaxClients]gate
+	done          gate
+	endSync       uint64 // address used for the final release/acquire only
+	step          uint64
+	lstep         [MaxClients]uint64
+	opSteps       [MaxClients]uint64
+	lastSite      [MaxClients]int32
+	prevW         [MaxClients]bool
+	since         uint64
+	events        []Event
+	npre          int
+	digest        uint64
+	starved       int
+	first         int
+	blockedStreak uint64
+	deadlocks     int
 	// PCT
 	prio    [MaxClients]int
 	cps     [8]uint64
@@ -274,6 +277,9 @@ func SetNoPreempt(p *int) { noPreempt = p }
 func Yield(site int) {
 	if !s.active {
 		idleSteps++
+		if site != -4 {
+			s.blockedStreak = 0
+		}
 		s.refSteps++
 		if s.refCap != 0 && s.refSteps > s.refCap {
 			s.refSteps = 0
@@ -286,6 +292,9 @@ func Yield(site int) {
 	s.lstep[c]++
 	s.opSteps[c]++
 	s.since++
+	if site != -4 {
+		s.blockedStreak = 0
+	}
 	st := int32(site)
 	if s.nAlive >= 2 && site >= 0 && site < len(s.siteSeen2) {
 		s.siteSeen2[site] = 1
@@ -350,6 +359,37 @@ func Pass(site int) {
 	if to >= 0 && to != c {
 		transfer(c, to, st, false)
 	}
+}
+
+// BlockedYield is called by a client that found a lock held by a parked client: it
+// must give way. With nobody to give way to it just burns a step, so a genuine
+// deadlock ends in StepCapExceeded (outcome "stepcap", class no-return).
+//
+//go:norace
+func BlockedYield() {
+	if !s.active {
+		// outside a run nobody else can release the lock
+		s.blockedStreak++
+		if s.blockedStreak > 64 {
+			s.blockedStreak = 0
+			panic(StepCapExceeded{})
+		}
+		Yield(-4)
+		return
+	}
+	// blockedStreak counts consecutive blocked acquisitions with no ordinary step by
+	// anybody in between: once every live client has been offered the baton a few
+	// times and all of them are still blocked, nobody can release anything any more.
+	s.blockedStreak++
+	if s.blockedStreak > uint64(4*s.nAlive+8) {
+		s.blockedStreak = 0
+		s.deadlocks++
+		panic(StepCapExceeded{})
+	}
+	if s.nAlive < 2 {
+		return
+	}
+	Pass(-4) // does not touch blockedStreak: only an ordinary step by somebody resets it
 }
 
 //go:norace
@@ -556,6 +596,8 @@ func setup(cfg *Config, n int) {
 	s.npre = 0
 	s.digest = 0xcbf29ce484222325
 	s.starved = 0
+	s.blockedStreak = 0
+	s.deadlocks = 0
 	s.done.w = 0
 	for i := 0; i < MaxClients; i++ {
 		s.alive[i] = i < n
@@ -643,7 +685,7 @@ func Run(cfg *Config, bodies []func()) *Outcome {
 
 //go:norace
 func collect() *Outcome {
-	o := &Outcome{Steps: s.step, Preemptions: s.npre, First: s.first, Starved: s.starved}
+	o := &Outcome{Steps: s.step, Preemptions: s.npre, First: s.first, Starved: s.starved, Deadlocks: s.deadlocks}
 	o.Events = make([]Event, len(s.events))
 	copy(o.Events, s.events)
 	for i := 0; i < s.n; i++ {
